@@ -234,6 +234,20 @@ def run(tier):
         try: return bool(rerun(run, FAMS[fam_of(ev["akey"])], ev))
         except Infra: return True
     run.classify(fails, key_of, confirm)
+    # the final exponentiation and the cyclotomic map, executed on exponents (ExpMachine) with the output distinct from / bound to the input:
+    # the two bindings must agree (an output read as if it were an input shows as a fault in exactly one of them)
+    import fam_tower
+    ex = fam_tower.exp_machine(run)
+    ex_fails = []
+    for fn in ("final_exponentiation", "map_to_cyclotomic"):
+        v0, v1 = ex[(fn, 0)][0], ex[(fn, 1)][0]
+        if "EXP-SKIP" in (v0, v1): run.notes.append("exponent machine not applicable to %s" % fn); continue
+        run.classes.add(("exp", fn))
+        if (v0 == "EXP-OK") != (v1 == "EXP-OK"):
+            bad = 0 if v0 != "EXP-OK" else 1
+            ex_fails.append(({"op": "exp.machine", "name": fn, "alias": bad, "verdict": ex[(fn, bad)][0], "detail": ex[(fn, bad)][1], "cfg": "source",
+                              "akey": "src:exp:" + fn, "acode": bad}, ["alias-dependent"]))
+    run.classify(ex_fails, key_of, None)
     if twin_bad: run.notes.append("alias-free twins rejected (owned by the layer's own property, not counted here): %s" % sorted(set(twin_bad))[:20])
     nreq = sum(len(v) for v in required.values())
     run.extra.update({"alias_obligations": {"catalogue_operations_with_patterns": len(plan), "required_key_code_pairs": nreq,
@@ -247,6 +261,22 @@ def run(tier):
 def replay(path):
     d = json.load(open(path))
     ev = d["event"]
+    if ev.get("op") == "exp.machine" or ev.get("op", "").startswith("tm."):
+        import fam_tower
+        if ev.get("op") == "exp.machine":
+            ex = fam_tower.exp_machine(None)
+            v0, v1 = ex[(ev["name"], 0)][0], ex[(ev["name"], 1)][0]
+            if "EXP-SKIP" not in (v0, v1) and (v0 == "EXP-OK") != (v1 == "EXP-OK"):
+                print("VIOLATION property=C18 replay=%s" % path); print("  %s: distinct output %s, output = input %s" % (ev["name"], v0, v1)); return 1
+            print("replay: both bindings %s" % v0); return 0
+        twin = dict(ev); twin["alias"] = 0
+        import io, contextlib
+        with contextlib.redirect_stdout(io.StringIO()):
+            t = fam_tower.replay_special("C18", path, twin)
+            a = fam_tower.replay_special("C18", path, ev)
+        if a and not t:
+            print("VIOLATION property=C18 replay=%s" % path); return 1
+        print("replay: aliased run %s, twin %s" % ("rejected" if a else "accepted", "rejected" if t else "accepted")); return 0
     run = Run("C18", "quick")
     fam = FAMS[fam_of(ev["akey"])]
     twin = dict(ev); twin["alias"] = 0
